@@ -70,6 +70,11 @@ def _task_class():
                 if msg and self.data and self.data.get("log"):
                     with open(self.data["log"], "a") as f:      # visible to the parent also from worker processes
                         f.write(json.dumps({"x": repr(x), "msg": msg}) + "\n")
+                if self.data["kind"] == "labeldec":
+                    dec = self.transform_solution(x)
+                    wl = {"rome": 1.0, "oslo": 2.5, "bern": 4.0, "kyiv": 5.5, "riga": 7.0, "baku": 8.5,
+                          "red": 0.25, "green": 1.25, "blue": 2.25, "cyan": 3.25}
+                    return float(sum((i + 1) * wl[str(lab)] for i, lab in enumerate(dec["p"])))
                 return _objective(self.data["kind"], x)
         BndTask.__module__ = __name__
         BndTask.__qualname__ = "BndTask"
@@ -107,6 +112,8 @@ def make_task(kind, direction, seed, log=None):
               BinaryVariable(name="b", n_vars=2), ContinuousMultiVariable(name="m", lower_bounds=[0, -3], upper_bounds=[1, 0])]
     elif kind == "perm":
         vs = [PermutationVariable(name="p", items=["a", "b", "c", "d", "e", "f"])]
+    elif kind == "labeldec":  # string labels decoded through transform_solution (cost depends on which label an index means)
+        vs = [PermutationVariable(name="p", items=["rome", "oslo", "bern", "kyiv", "riga", "baku"])]
     else:
         raise ValueError(kind)
     kw = dict(variables=vs, minmax=direction, seed=seed, data={"kind": kind, "log": log})
@@ -521,8 +528,53 @@ def run_pair(case):
     return rec
 
 
+def _xproc_digest(case):
+    """one seeded serial run on the label-decoding task; a digest of everything the result holds"""
+    sys.path.insert(0, REPO)
+    import pyvolutionary as pv
+    import contextlib, io
+    K = getattr(pv, case["opt"])
+    C = getattr(pv, case["cfg_name"])
+    try:
+        task, _ = make_task("labeldec", case["direction"], case["seed"])
+        with contextlib.redirect_stdout(io.StringIO()):
+            res = K(C(**case["cfg_kw"])).optimize(task)
+        return hashlib.sha256(repr(res.model_dump()).encode()).hexdigest()[:16]
+    except Exception as ex:  # noqa
+        return f"exception {type(ex).__name__}"
+
+
+def run_xproc(cases, hashseeds=("1", "2")):
+    """the same seeded runs in fresh interpreter processes that differ only in PYTHONHASHSEED (C07: 'in the same or in
+    different processes'); one child per hash seed handles all the cases"""
+    import subprocess, tempfile
+    with tempfile.NamedTemporaryFile("w", suffix=".json", delete=False) as f:
+        json.dump(cases, f, default=str)
+    outs = []
+    procs = [subprocess.Popen([sys.executable, "-m", "pyvc.bnd", "--xproc-child", f.name], cwd=VERIF, stdout=subprocess.PIPE, text=True,
+                              env=dict(os.environ, PYTHONHASHSEED=h, PYVC_REPO=REPO)) for h in hashseeds]
+    for p_ in procs:
+        o = p_.communicate(timeout=3000)[0]
+        outs.append(json.loads(o.strip().splitlines()[-1]) if o.strip() else None)
+    os.unlink(f.name)
+    recs = []
+    for i, case in enumerate(cases):
+        rec = {"case": {k: case[k] for k in case if k != "cfg_kw"}, "monitors": {}, "exc": None}
+        if any(o is None for o in outs):
+            rec["harness_error"] = "xproc child produced no output"
+        else:
+            ds = [o[i] for o in outs]
+            if len(set(ds)) > 1:
+                rec["monitors"]["C07"] = ("the same seeded run differs between two processes with different PYTHONHASHSEED "
+                                          f"(task with string labels decoded by transform_solution): {ds}")
+        recs.append(rec)
+    return recs
+
+
 def _dispatch(case):
     try:
+        if case.get("scenario") == "xproc":
+            return run_xproc([case])[0]
         if case.get("scenario") in ("repro", "reuse", "setcfg", "duality", "reuse2", "repro0", "setcfg2", "duality_reuse", "reuse3", "reuse_dim"):
             return run_pair(case)
         return run_case(case)
@@ -580,6 +632,8 @@ def build_cases(tier, seed):
                                       seed=seeds[0], mode=None, scenario="setcfg2", scale=1.0, alt={pname: alt, "population_size": base["population_size"]}))
         cases.append(dict(opt=opt, cfg_name=cfg_name, cfg_kw=dict(base, max_cycles=3), kind="perm", direction="min", seed=seeds[0],
                           mode=None, scenario="repro", scale=1.0))
+        cases.append(dict(opt=opt, cfg_name=cfg_name, cfg_kw=dict(base, max_cycles=3), kind="labeldec", direction="min", seed=seeds[0],
+                          mode=None, scenario="xproc", scale=1.0))
         # population sizes above the documented scale, debug logging, rejected calls
         if tier == "quick":
             for sc_ in (1.5, 3.0):
@@ -613,8 +667,9 @@ def campaign(tier="quick", seed=0, procs=None):
     t0 = time.time()
     # process-mode cases start pools themselves: run those in a smaller outer pool
     heavy = [c for c in cases if c.get("mode") == "process"]
-    light = [c for c in cases if c.get("mode") != "process"]
-    recs = []
+    xproc = [c for c in cases if c.get("scenario") == "xproc"]
+    light = [c for c in cases if c.get("mode") != "process" and c.get("scenario") != "xproc"]
+    recs = run_xproc(xproc, ("1", "2") if tier == "quick" else ("1", "2", "3", "4")) if xproc else []
     with ProcessPoolExecutor(procs) as ex:
         recs += list(ex.map(_dispatch, light, chunksize=8))
     with ProcessPoolExecutor(max(2, procs // 4)) as ex:
@@ -641,6 +696,11 @@ def _tree_key(tier, seed):
         h.update(open(f, "rb").read())
     return h.hexdigest()[:24]
 
+
+if __name__ == "__main__" and len(sys.argv) > 2 and sys.argv[1] == "--xproc-child":
+    with ProcessPoolExecutor(4) as ex_:
+        print(json.dumps(list(ex_.map(_xproc_digest, json.load(open(sys.argv[2])), chunksize=4))))
+    sys.exit(0)
 
 if __name__ == "__main__":
     tier = sys.argv[1] if len(sys.argv) > 1 else "quick"
